@@ -1,4 +1,5 @@
 From Coq Require Import List NArith Bool Lia Arith Sorting.Sorted.
+From BE Require Import Model.Scan.
 Import ListNotations.
 
 Definition NULLENTRY : N := 18446744073709551615%N.
@@ -40,9 +41,70 @@ Definition skip_to (l : list N) (c : cursor) (id : N) : option cursor :=
 
 Definition new_cursor (l : list N) : cursor := {| c_pos := 0; c_eid := ent l 0 |}.
 
-Definition tl8 := [1;3;3;7;9;12;12;40]%N.
-Eval vm_compute in
-  (option_map c_pos (skip_to tl8 (new_cursor tl8) 12%N),
-   option_map c_pos (skip_to tl8 (new_cursor tl8) 13%N),
-   option_map c_pos (skip_to tl8 (new_cursor tl8) 100%N),
-   option_map c_pos (skip_to tl8 {| c_pos := 3; c_eid := 7 |} 3%N)).
+
+(* what remains of a list at/after the cursor; the value-level effect of SkipTo *)
+Definition remaining (l : list N) (c : cursor) : list N := skipn (c_pos c) l.
+Fixpoint drop_lt (id : N) (r : list N) : list N :=
+  match r with [] => [] | x :: r' => if (x <? id)%N then drop_lt id r' else r end.
+
+(* ---- field cursors: a group of entry cursors and (the entry of) the current minimum ---- *)
+Definition member := (list N * cursor)%type.
+Definition fcur := list member.
+
+(* all members skip; used by the refinement proofs *)
+Fixpoint fc_skip (id : N) (fc : fcur) : option fcur :=
+  match fc with
+  | [] => Some []
+  | (l, c) :: rest =>
+    match skip_to l c id, fc_skip id rest with
+    | Some c', Some rest' => Some ((l, c') :: rest')
+    | _, _ => None
+    end
+  end.
+Definition fc_cur (fc : fcur) : N := fold_right (fun m acc => N.min (c_eid (snd m)) acc) NULLENTRY fc.
+
+(* the Go object: cursorGroup + current (we keep the current cursor's curEID, which is all
+   GetCurEntryID/ReachEnd read).  FieldCursor.SkipTo: newMin starts at NULLENTRY, every member
+   skips, `if eid <= newMin { newMin = eid; current = cur }`. *)
+Record fcursor := { fc_group : fcur; fc_current : N }.
+
+Fixpoint fc_skip_loop (id : N) (fc : fcur) (newMin : N) : option (fcur * N) :=
+  match fc with
+  | [] => Some ([], newMin)
+  | (l, c) :: rest =>
+    match skip_to l c id with
+    | None => None
+    | Some c' =>
+      let nm := if (c_eid c' <=? newMin)%N then c_eid c' else newMin in
+      match fc_skip_loop id rest nm with
+      | None => None
+      | Some (r, m) => Some ((l, c') :: r, m)
+      end
+    end
+  end.
+Definition fcursor_skip_to (f : fcursor) (id : N) : option (fcursor * N) :=
+  match fc_skip_loop id (fc_group f) NULLENTRY with
+  | None => None
+  | Some (g, m) => Some ({| fc_group := g; fc_current := m |}, m)
+  end.
+
+(* NewFieldCursor: current = first member with the strictly smallest curEID (nil for no members:
+   callers never build an empty group; we use NULLENTRY there) *)
+Fixpoint new_fc_loop (ms : fcur) (cur : option N) : option N :=
+  match ms with
+  | [] => cur
+  | (_, c) :: rest =>
+    new_fc_loop rest (match cur with
+                      | None => Some (c_eid c)
+                      | Some e => if (c_eid c <? e)%N then Some (c_eid c) else Some e
+                      end)
+  end.
+Definition new_fcursor (ls : list (list N)) : fcursor :=
+  let g := map (fun l => (l, new_cursor l)) ls in
+  {| fc_group := g; fc_current := match new_fc_loop g None with Some e => e | None => NULLENTRY end |}.
+
+Definition fcursor_reach_end (f : fcursor) : bool := (fc_current f =? NULLENTRY)%N.
+
+(* FieldCursors.Sort: Go's insertion sort on GetCurEntryID (plain uint64 comparison; the sentinel is the maximum) *)
+Definition nkey (e : N) : option N := Some e.
+Definition sort_fcursors (fs : list fcursor) : list fcursor := isort (fun f => nkey (fc_current f)) fs.
